@@ -105,6 +105,7 @@ def main():
     ap.add_argument("--nproc", type=int, default=min(16, os.cpu_count() or 1))
     ap.add_argument("--no-evidence", action="store_true")
     ap.add_argument("--cfg", help="regex on config key")
+    ap.add_argument("--verbose", "-v", action="store_true")
     ap.add_argument("--all-labels", action="store_true", help="discharge the obligations of every property, not only this one")
     args = ap.parse_args()
     seed = int(os.environ.get("VERIF_SEED", "0"))
@@ -146,6 +147,10 @@ def main():
     seen_label = set()
     for (hn, ck), a in sorted(aggs.items()):
         h = explore.HARNESSES[hn]
+        if args.verbose:
+            print(f"  {hn}[{ck}] paths={a.paths} status={a.by_status} validated={a.validated} reached={sorted(a.reached)} nq={a.nq} ts={a.tsolve:.1f}")
+            for kind, det in a.mismatches[:2]:
+                print("     mismatch:", kind, str(det)[:600])
         paths += a.paths; decisions += a.decisions; nq += a.nq; unknown += a.unknown; tsolve += a.tsolve
         validated += a.validated.get("ok", 0)
         samples += a.samples[:1] if len(samples) < 12 else []
